@@ -5,6 +5,7 @@ import (
 	"go/ast"
 	"go/token"
 	"go/types"
+	"golang.org/x/tools/go/packages"
 	"strings"
 
 	"golang.org/x/tools/go/ssa"
@@ -74,10 +75,21 @@ func runC10(c *Ctx) {
 }
 
 // lenLowerBound derives, from an outcome of a condition, a lower bound of len(<expr>) (by expression text).
-func lenLowerBound(info *types.Info, e ast.Expr, outcome bool) (string, int64, bool) {
+func lenLowerBound(info *types.Info, e ast.Expr, outcome bool, konst ...func(ast.Expr) (int64, bool)) (string, int64, bool) {
 	b, ok := ast.Unparen(e).(*ast.BinaryExpr)
 	if !ok {
 		return "", 0, false
+	}
+	intConst := func(info *types.Info, x ast.Expr) (int64, bool) {
+		if k, ok := intConst(info, x); ok {
+			return k, true
+		}
+		for _, f := range konst {
+			if k, ok := f(x); ok {
+				return k, true
+			}
+		}
+		return 0, false
 	}
 	lenArg := func(x ast.Expr) (string, bool) {
 		call, ok := ast.Unparen(x).(*ast.CallExpr)
@@ -89,12 +101,16 @@ func lenLowerBound(info *types.Info, e ast.Expr, outcome bool) (string, int64, b
 	op := b.Op
 	var v string
 	var k int64
-	if a, ok := lenArg(b.X); ok {
+	if _, isK := intConst(info, b.X); isK {
+		// a constant on the left (possibly len of an immutable package-level slice): fall through to the K op len(v) form
+	} else if a, ok := lenArg(b.X); ok {
 		c, okc := intConst(info, b.Y)
 		if !okc {
 			return "", 0, false
 		}
 		v, k = a, c
+	}
+	if v != "" {
 	} else if a, ok := lenArg(b.Y); ok {
 		c, okc := intConst(info, b.X)
 		if !okc {
@@ -157,6 +173,19 @@ func (c *Ctx) r103() {
 			continue
 		}
 		info := pk.TypesInfo
+		glen := c.immutableLens(pk)
+		konst := func(e ast.Expr) (int64, bool) {
+			call, ok := ast.Unparen(e).(*ast.CallExpr)
+			if !ok || str(call.Fun) != "len" || len(call.Args) != 1 {
+				return 0, false
+			}
+			id, ok := ast.Unparen(call.Args[0]).(*ast.Ident)
+			if !ok {
+				return 0, false
+			}
+			k, ok := glen[info.Uses[id]]
+			return k, ok
+		}
 		for _, fd := range load.FuncDecls(pk) {
 			g := c.graph(pk, fd)
 			fname := pk.Name + "." + load.FuncName(fd)
@@ -219,7 +248,7 @@ func (c *Ctx) r103() {
 						if f.Test.Kind != flow.KCond {
 							continue
 						}
-						if v, lb, ok := lenLowerBound(info, f.Test.Expr, f.Value); ok && v == ac.v && lb > best {
+						if v, lb, ok := lenLowerBound(info, f.Test.Expr, f.Value, konst); ok && v == ac.v && lb > best {
 							// no reassignment of v between the test and the access
 							reassigned := false
 							for _, z := range g.Nodes {
@@ -248,6 +277,69 @@ func (c *Ctx) r103() {
 	}
 	c.R.Note("R10.3: %d constant-index accesses seen, %d dominated by a length test and judged", n, judged)
 	c.R.Floor(rule, "constant-index accesses under a length guard", judged, 40)
+}
+
+// immutableLens: the length of every package-level []byte / string variable of pk that has a constant
+// initializer and is never assigned, appended to or sliced-and-stored anywhere in the package.
+func (c *Ctx) immutableLens(pk *packages.Package) map[types.Object]int64 {
+	out := map[types.Object]int64{}
+	info := pk.TypesInfo
+	written := map[types.Object]bool{}
+	for _, f := range pk.Syntax {
+		ast.Inspect(f, func(x ast.Node) bool {
+			mark := func(e ast.Expr) {
+				for {
+					switch t := ast.Unparen(e).(type) {
+					case *ast.IndexExpr:
+						e = t.X
+						continue
+					case *ast.SliceExpr:
+						e = t.X
+						continue
+					case *ast.StarExpr:
+						e = t.X
+						continue
+					case *ast.Ident:
+						if o := info.Uses[t]; o != nil {
+							written[o] = true
+						}
+					}
+					return
+				}
+			}
+			switch s := x.(type) {
+			case *ast.AssignStmt:
+				for _, l := range s.Lhs {
+					mark(l)
+				}
+			case *ast.IncDecStmt:
+				mark(s.X)
+			case *ast.UnaryExpr:
+				if s.Op == token.AND {
+					mark(s.X)
+				}
+			}
+			return true
+		})
+	}
+	scope := pk.Types.Scope()
+	for _, name := range scope.Names() {
+		v, ok := scope.Lookup(name).(*types.Var)
+		if !ok || written[v] {
+			continue
+		}
+		val, _, err := c.Ev.PackageVar(pk, name)
+		if err != nil {
+			continue
+		}
+		switch t := val.(type) {
+		case []byte:
+			out[v] = int64(len(t))
+		case string:
+			out[v] = int64(len(t))
+		}
+	}
+	return out
 }
 
 func (c *Ctx) r101() {
